@@ -26,10 +26,11 @@ SHAPES = [
     "ctype-quote",
     "addr-empty",
     "nul-header",
+    "8bit-body",
 ]
 # not in SHAPES (expensive): "big" - a body of about 400 KiB, for pushes larger than any socket buffer; "huge-line" - one line of 70 kB
 
-TAME_SHAPES = ["plain", "folded", "multipart", "crlf", "dot-lines", "empty-body"]
+TAME_SHAPES = ["plain", "folded", "multipart", "crlf", "dot-lines", "empty-body", "8bit-body"]
 
 
 def tokname(tok):
@@ -150,6 +151,11 @@ def build(shape, tok):
         hdr[2] = b"Subject: nul \x00 inside " + t.encode()
         hdr[0] = b'From: "n\x00ul" <a\x00@example.org>'
         hdr.append(b"In-Reply-To: <x\x00y@example.org>")
+    elif shape == "8bit-body":
+        hdr.append(b"MIME-Version: 1.0")
+        hdr.append(b"Content-Type: text/plain; charset=iso-8859-1")
+        hdr.append(b"Content-Transfer-Encoding: 8bit")
+        body = [b"caf\xe9 au lait " + t.encode(), b"\xa9 \xff " + t.encode()]
     elif shape == "mp-no-boundary":
         # declared multipart whose body never shows the boundary (the email package keeps it as one raw string), with
         # lines that begin with a dot
